@@ -1,11 +1,11 @@
 """C17 plan."""
-from plan import R, D, M, A, stages
+from plan import R, D, M, A, T, stages
 import fuzzstage
 
 PLAN = dict(
     **stages(
-        quick=[(R, "quick", 16), (D, "small", 16)],
-        thorough=[(R, "thorough", 16), (D, "quick", 16), (A, "small", 8), (M, "mini", 16)],
+        quick=[(R, "quick", 16), (D, "small", 16), (T, "small", 16)],
+        thorough=[(R, "thorough", 16), (D, "quick", 16), (T, "quick", 16), (A, "small", 8), (M, "mini", 16)],
     ),
     extra={"thorough": [fuzzstage.fuzz]},
     timeout={"quick": 900, "thorough": 7200},
